@@ -2266,8 +2266,8 @@ def c14(ck):
     # the decoders may look at the head of such a string only, and that is what the specification is given
     s = Script()
     s.add("enable", 0)
-    pats = [s.string(b"a"), s.string(codec.phrase("en", rand_idx(rng)) + b" ")] + ([] if quick else [s.string(b"abandon ")])
-    for total in ([2 ** 31 + 16, 2 ** 32 + 5] if quick else [2 ** 31 - 1, 2 ** 31, 2 ** 31 + 16, 2 ** 32 - 1, 2 ** 32 + 5, 2 ** 32 + 2 ** 31 + 7]):
+    pats = [s.string(b"a"), s.string(codec.phrase("en", rand_idx(rng)) + b" ")]
+    for total in ([2 ** 31 + 16, 2 ** 32 + 5] if quick else [2 ** 31 - 1, 2 ** 31 + 16, 2 ** 32 - 1, 2 ** 32 + 5]):
         for r in pats:
             s.add("decode", r, 0, 1, "rep=%d" % total)
             if not quick or total < 2 ** 32:
